@@ -70,6 +70,30 @@ static inline %(T)s* vf_seq_%(G)s_erase(struct vf_seq_%(G)s* s, %(T)s* it)
   s->n--;
   return it;
 }
+/* insert / erase(first,last): exact for sequences of at most VF_CAP elements (constant-bound loops: the driver unwinds
+   them completely, see check.json "unwindset" when loop contracts are applied to the units) */
+static inline %(T)s* vf_seq_%(G)s_insert(struct vf_seq_%(G)s* s, %(T)s* it, %(T)s v)
+{
+  size_t i = (size_t)(it - (s->d + s->h));
+  __CPROVER_assert(i <= s->n, "vf_seq insert position in range");
+  __CPROVER_assert(s->n <= VF_CAP, "vf_seq within model capacity");
+  __CPROVER_assume(s->h + s->n < s->cap);
+  for (size_t j = VF_CAP; j > 0; j--) { if (j <= s->n && j > i) s->d[s->h + j] = s->d[s->h + j - 1]; }
+  s->d[s->h + i] = v;
+  s->n++;
+  return s->d + s->h + i;
+}
+static inline %(T)s* vf_seq_%(G)s_erase_range(struct vf_seq_%(G)s* s, %(T)s* first, %(T)s* last)
+{
+  size_t ia = (size_t)(first - (s->d + s->h));
+  size_t ib = (size_t)(last - (s->d + s->h));
+  __CPROVER_assert(ia <= ib && ib <= s->n, "vf_seq erase range in range");
+  __CPROVER_assert(s->n <= VF_CAP, "vf_seq within model capacity");
+  size_t k = ib - ia;
+  for (size_t j = 0; j < VF_CAP; j++) { if (j >= ia && j + k < s->n) s->d[s->h + j] = s->d[s->h + j + k]; }
+  s->n -= k;
+  return first;
+}
 '''
 
 SEQ_EXTRA = r'''
@@ -138,6 +162,12 @@ static inline struct vf_pair_%(G)s* vf_map_%(G)s_begin(struct vf_map_%(G)s* s) {
 static inline struct vf_pair_%(G)s* vf_map_%(G)s_end(struct vf_map_%(G)s* s) { return s->e + s->n; }
 static inline struct vf_pair_%(G)s* vf_map_%(G)s_find(struct vf_map_%(G)s* s, %(A)s k)
 {
+#ifdef VF_EXACT_MODELS /* exact for every map of at most VF_CAP entries: constant-bound loop, unwound completely */
+  size_t r = s->n;
+  __CPROVER_assert(s->n <= VF_CAP, "vf_map within model capacity");
+  for (size_t i = 0; i < VF_CAP; i++) { if (i < s->n && r == s->n && s->e[i].first == k) r = i; }
+  return s->e + r;
+#else
   size_t i = 0;
   while (i < s->n && !(s->e[i].first == k))
     __CPROVER_assigns(i)
@@ -145,6 +175,7 @@ static inline struct vf_pair_%(G)s* vf_map_%(G)s_find(struct vf_map_%(G)s* s, %(
     __CPROVER_decreases(s->n - i)
   { i++; }
   return s->e + i;
+#endif
 }
 static inline size_t vf_map_%(G)s_count(struct vf_map_%(G)s* s, %(A)s k) { return vf_map_%(G)s_find(s, k) != s->e + s->n; }
 static inline _Bool vf_map_%(G)s_contains(struct vf_map_%(G)s* s, %(A)s k) { return vf_map_%(G)s_find(s, k) != s->e + s->n; }
@@ -165,12 +196,18 @@ static inline void vf_map_%(G)s_insert(struct vf_map_%(G)s* s, %(A)s k, %(B)s v)
   struct vf_pair_%(G)s* p = vf_map_%(G)s_find(s, k);
   if (p == s->e + s->n) { __CPROVER_assume(s->n < s->cap); p->first = k; p->second = v; s->n++; }
 }
+static inline void vf_map_%(G)s_insert_pair(struct vf_map_%(G)s* s, struct vf_pair_%(G)s v) { vf_map_%(G)s_insert(s, v.first, v.second); }
 static inline void vf_map_%(G)s_set(struct vf_map_%(G)s* s, %(A)s k, %(B)s v) { *vf_map_%(G)s_index(s, k) = v; }
 static inline size_t vf_map_%(G)s_erase(struct vf_map_%(G)s* s, %(A)s k)
 {
   struct vf_pair_%(G)s* p = vf_map_%(G)s_find(s, k);
   if (p == s->e + s->n) return 0;
   size_t i = (size_t)(p - s->e);
+#ifdef VF_EXACT_MODELS
+  for (size_t j = 0; j + 1 < VF_CAP; j++) { if (j >= i && j + 1 < s->n) s->e[j] = s->e[j + 1]; }
+  s->n--;
+  return 1;
+#else
   for (size_t j = i; j + 1 < s->n; j++)
     __CPROVER_assigns(j, __CPROVER_object_whole(s->e))
     __CPROVER_loop_invariant(i <= j && j < s->n)
@@ -178,6 +215,7 @@ static inline size_t vf_map_%(G)s_erase(struct vf_map_%(G)s* s, %(A)s k)
   { s->e[j] = s->e[j + 1]; }
   s->n--;
   return 1;
+#endif
 }
 '''
 
